@@ -91,9 +91,16 @@ class C12(PropertyCheck):
                     continue
                 pts.append([q(py), q(px)])
             ov = self._overlay_shape_without_ties(rng, m)
+            # mesh points strictly inside the frame and off every pixel boundary (count-valued entries)
+            mesh_pts = []
+            for _ in range(6):
+                i, j = rng.randrange(h), rng.randrange(w)
+                fi, fj = rng.choice([Fraction(1, 4), Fraction(1, 2), Fraction(3, 4)]), rng.choice(
+                    [Fraction(1, 4), Fraction(1, 2), Fraction(3, 4)])
+                mesh_pts.append([q(oy + (Fraction(h, 2) - (i + fi)) * sy), q(ox + ((j + fj) - Fraction(w, 2)) * sx)])
             yield {"tag": f"geom_{kind}", "group": "geometry", "mask": mask_json(m),
                    "scales": [q(sy), q(sx)], "origin": [q(oy), q(ox)], "shift": [q(dy), q(dx)],
-                   "sub": rng.randint(1, 3), "kernel": [kh, kw], "points": pts,
+                   "sub": rng.randint(1, 3), "kernel": [kh, kw], "points": pts, "mesh_points": mesh_pts,
                    "resize_to": [h + rng.choice([-2, 0, 2, 3]), w + rng.choice([-2, 0, 2, 1])],
                    "overlay": ov,
                    "angle": rng.choice([0, 30, 45, 90, 120])}
@@ -132,7 +139,7 @@ class C12(PropertyCheck):
                 dx = Fraction(3, 4)
             yield {"tag": "hilbert", "group": "hilbert", "n": n, "scale": q(s),
                    "radius": q(s * (n // 2 - 2)), "origin": [q(oy), q(ox)], "shift": [q(dy), q(dx)],
-                   "pixels": rng.randint(8, 20), "masked_adapt": False}
+                   "pixels": rng.randint(8, 20), "masked_adapt": False, "settings_checks": bool(i % 2)}
         # the residual Qhull-degeneracy finding (masked, non-affine adapt image): one sentinel case
         yield {"tag": "hilbert_masked_adapt", "group": "hilbert", "n": 21, "scale": "1/4",
                "radius": "2", "origin": ["0", "0"], "shift": ["3/4", "-5/4"], "pixels": 10,
@@ -225,6 +232,17 @@ class C12(PropertyCheck):
             m.geometry.grid_pixel_centres_2d_from(grid_scaled_2d=gi), dtype=float).reshape(-1, 2).tolist())
         put("grid_pixels", "inv", lambda: np.asarray(
             m.geometry.grid_pixels_2d_from(grid_scaled_2d=gi), dtype=float).reshape(-1, 2).tolist())
+        # count-valued: mesh points per image pixel (points = the off-boundary query points)
+        gm = aa.Grid2DIrregular(values=[(F(a) + shift[0], F(b) + shift[1]) for a, b in case["mesh_points"]])
+        put("mesh_pixels_per_image_pixels", "inv", lambda: np.asarray(
+            aa.image_mesh.Overlay(shape=(3, 3)).mesh_pixels_per_image_pixels_from(mask=m, mesh_grid=gm).native.array,
+            dtype=float).ravel().tolist())
+
+        def mg_counts():
+            mgr = aa.MapperGrids(mask=m, source_plane_data_grid=g, source_plane_mesh_grid=gm,
+                                 image_plane_mesh_grid=gm)
+            return np.asarray(mgr.mesh_pixels_per_image_pixels.native.array, dtype=float).ravel().tolist()
+        put("mapper_grids_mesh_pixels_per_image_pixels", "inv", mg_counts)
         put("edge_slim", "inv", lambda: [int(v) for v in m.derive_indexes.edge_slim])
         put("border_slim", "inv", lambda: [int(v) for v in m.derive_indexes.border_slim])
         put("sub_border_slim", "inv", lambda: [int(v) for v in aa.BorderRelocator(mask=m, sub_size=sub).sub_border_slim])
@@ -346,8 +364,14 @@ class C12(PropertyCheck):
             adapt = aa.Array2D.no_mask(values=img, pixel_scales=s, origin=origin)
         hb = aa.image_mesh.Hilbert(pixels=case["pixels"], weight_floor=0.1, weight_power=1.0)
         out = {}
+        settings = None
+        if case.get("settings_checks"):
+            # the optional checks count mesh points per image pixel: a count-valued intermediate
+            settings = aa.SettingsInversion(image_mesh_min_mesh_pixels_per_pixel=0,
+                                            image_mesh_min_mesh_number=1,
+                                            image_mesh_adapt_background_percent_threshold=None)
         try:
-            g = hb.image_plane_mesh_grid_from(mask=m, adapt_data=adapt)
+            g = hb.image_plane_mesh_grid_from(mask=m, adapt_data=adapt, settings=settings)
             out["hilbert_mesh"] = {"kind": "coord", "value": np.asarray(g.array, dtype=float).reshape(-1, 2).tolist()}
         except Exception as e:
             out["hilbert_mesh"] = {"kind": "coord", "value": None, "err": type(e).__name__, "msg": str(e)[:200]}
